@@ -1,0 +1,199 @@
+//go:build verif
+
+package rockredis
+
+// Exports for the verification harness (properties C12 / C13): the unexported key
+// encoders, their decoders, the stop keys and table ranges, so that a driver can
+// enumerate them directly, and a synchronous trigger of the local-deletion expiry
+// pass.  Nothing in here is compiled without the build tag `verif`.
+
+import (
+	"errors"
+
+	"github.com/youzan/ZanRedisDB/engine"
+)
+
+// ---- collection (hash / set / zset member) keys: [type][tlen][table]:[klen][key]:[sub]
+
+func VerifScanCollSubKey(dt byte, table, key, sub []byte) []byte {
+	switch dt {
+	case HashType:
+		return hEncodeHashKey(table, key, sub)
+	case SetType:
+		return sEncodeSetKey(table, key, sub)
+	case ZSetType:
+		return zEncodeSetKey(table, key, sub)
+	}
+	return nil
+}
+
+func VerifScanDecCollSubKey(dt byte, ek []byte) (table, key, sub []byte, err error) {
+	switch dt {
+	case HashType:
+		return hDecodeHashKey(ek)
+	case SetType:
+		return sDecodeSetKey(ek)
+	case ZSetType:
+		return zDecodeSetKey(ek)
+	}
+	return nil, nil, nil, errDataType
+}
+
+// VerifScanCollRange returns the [start, stop) range the data mapping uses to address
+// every element key of one collection (hash, set, zset members, zset scores, list, bitmap).
+func VerifScanCollRange(dt byte, table, key []byte) (start, stop []byte, err error) {
+	switch dt {
+	case HashType:
+		return hEncodeStartKey(table, key), hEncodeStopKey(table, key), nil
+	case SetType:
+		return sEncodeStartKey(table, key), sEncodeStopKey(table, key), nil
+	case ZSetType:
+		return zEncodeStartSetKey(table, key), zEncodeStopSetKey(table, key), nil
+	case ZScoreType:
+		return zEncodeStartKey(table, key), zEncodeStopKey(table, key), nil
+	case ListType:
+		// lists are addressed by [key|listMinSeq, key|listMaxSeq] (closed)
+		return lEncodeListKey(table, key, listMinSeq), lEncodeListKey(table, key, listMaxSeq), nil
+	case BitmapType:
+		start, err = encodeBitmapStartKey(table, key, 0)
+		if err != nil {
+			return nil, nil, err
+		}
+		stop, err = encodeBitmapStopKey(table, key)
+		return start, stop, err
+	}
+	return nil, nil, errDataType
+}
+
+func VerifScanListSeqBounds() (min, max, initial int64) {
+	return listMinSeq, listMaxSeq, listInitialSeq
+}
+
+func VerifScanListKey(table, key []byte, seq int64) []byte { return lEncodeListKey(table, key, seq) }
+func VerifScanDecListKey(ek []byte) ([]byte, []byte, int64, error) {
+	return lDecodeListKey(ek)
+}
+
+func VerifScanZScoreKey(table, key, member []byte, score float64) []byte {
+	return zEncodeScoreKey(false, false, table, key, member, score)
+}
+func VerifScanDecZScoreKey(ek []byte) ([]byte, []byte, []byte, float64, error) {
+	return zDecodeScoreKey(ek)
+}
+
+// start / stop of the members that carry one score (ZRANGEBYSCORE bounds)
+func VerifScanZScoreBounds(table, key []byte, score float64) (start, stop []byte) {
+	return zEncodeStartScoreKey(table, key, score), zEncodeStopScoreKey(table, key, score)
+}
+
+func VerifScanBitmapKey(table, key []byte, index int64) ([]byte, error) {
+	return encodeBitmapKey(table, key, index)
+}
+func VerifScanDecBitmapKey(ek []byte) ([]byte, []byte, int64, error) { return decodeBitmapKey(ek) }
+
+// ---- kv and per-type meta keys (the keys SCAN / ADVSCAN iterate): [type]["meta:"]table:key
+
+func VerifScanMetaKey(dt byte, key []byte) ([]byte, error) { return encodeMetaKey(dt, key) }
+func VerifScanDecMetaKey(storeType byte, ek []byte) ([]byte, error) {
+	return decodeScanKey(storeType, ek)
+}
+
+// the store type SCAN uses for a data type (KVType, HSizeType, LMetaType, SSizeType, ZSizeType)
+func VerifScanStoreType(dt byte) (byte, error) {
+	switch dt {
+	case KVType:
+		return KVType, nil
+	case HashType:
+		return HSizeType, nil
+	case ListType:
+		return LMetaType, nil
+	case SetType:
+		return SSizeType, nil
+	case ZSetType:
+		return ZSizeType, nil
+	case BitmapType:
+		return BitmapMetaType, nil
+	}
+	return 0, errDataType
+}
+
+// ---- table ranges
+
+func VerifScanTableStartEnd(dt byte, table []byte) (start, end []byte) {
+	return encodeDataTableStart(dt, table), encodeDataTableEnd(dt, table)
+}
+
+// the ranges a whole-table delete removes for one data type (data ranges, meta range)
+func VerifScanTableDeleteRanges(dt byte, metaType byte, table []byte) (data []engine.CRange, metaMin, metaMax []byte, err error) {
+	data, err = getTableDataRange(dt, table, nil, nil)
+	if err != nil {
+		return nil, nil, nil, err
+	}
+	t := make([]byte, len(table))
+	copy(t, table)
+	metaMin, metaMax, err = getTableMetaRange(metaType, t, nil, nil)
+	return data, metaMin, metaMax, err
+}
+
+func VerifScanTableMetaKey(table []byte) []byte { return encodeTableMetaKey(table) }
+
+// ---- versioned keys (wait-compact policy) and index keys built on the memcmp codec
+
+func VerifCodecVerKey(key []byte, ver int64) []byte {
+	h := newHeaderMetaV1()
+	h.ValueVersion = ver
+	return encodeVerKey(h, key)
+}
+func VerifCodecDecVerKey(b []byte) ([]byte, int64, error) { return decodeVerKey(b) }
+
+func VerifCodecHsetIndexStringKey(table, name, value, pk []byte, stop bool) ([]byte, error) {
+	return encodeHsetIndexStringKey(table, name, value, pk, stop)
+}
+func VerifCodecDecHsetIndexStringKey(ek []byte) ([]byte, []byte, []byte, []byte, error) {
+	return decodeHsetIndexStringKey(ek)
+}
+func VerifCodecHsetIndexNumberKey(table, name []byte, value int64, pk []byte, stop bool) ([]byte, error) {
+	return encodeHsetIndexNumberKey(table, name, value, pk, stop)
+}
+func VerifCodecDecHsetIndexNumberKey(ek []byte) ([]byte, []byte, int64, []byte, error) {
+	return decodeHsetIndexNumberKey(ek)
+}
+func VerifCodecHsetIndexRange(table, name []byte) (start, stop []byte) {
+	return encodeHsetIndexStartKey(table, name), encodeHsetIndexStopKey(table, name)
+}
+
+// ---- expiry index keys (local deletion)
+
+func VerifScanExpTimeKey(dt byte, key []byte, when int64) []byte {
+	return expEncodeTimeKey(dt, key, when)
+}
+func VerifScanDecExpTimeKey(tk []byte) (byte, []byte, int64, error) { return expDecodeTimeKey(tk) }
+
+// ---- expiry-driven clears, synchronously
+
+// VerifScanSetLocalExpInterval changes the period (seconds) of the background pass of the
+// local-deletion policy; must be called before a store is opened.  The harness sets it to
+// a huge value and triggers passes itself with VerifScanLocalExpireOnce.
+func VerifScanSetLocalExpInterval(sec int) { localExpCheckInterval = sec }
+
+// VerifScanLocalExpireOnce runs one complete pass of the local-deletion expiry (the body of
+// localExpiration.applyExpiration's ticker branch) on the calling goroutine.
+func (r *RockDB) VerifScanLocalExpireOnce() error {
+	exp, ok := r.expiration.(*localExpiration)
+	if !ok {
+		return errors.New("not the local deletion policy")
+	}
+	stop := make(chan struct{})
+	buf := newLocalBatchedBuffer(r, localBatchedBufSize)
+	defer buf.Destroy()
+	exp.TTLChecker.setNextCheckTime(0, true)
+	for i := 0; i < 64; i++ {
+		err := exp.TTLChecker.check(buf, stop)
+		buf.commit()
+		if err == ErrLocalBatchedBuffFull {
+			continue
+		}
+		return err
+	}
+	return nil
+}
